@@ -151,6 +151,11 @@ void curve_op(const void * p, int t, std::vector<double> & out)
     const AnyManifold b = rplus(a, d);
     put(out, b.get<SE2d>().coeffs());
     put(out, rminus(b, *s->any));
+    // writing through a thread-private copy leaves the shared object alone
+    a.get<SE2d>() = a.get<SE2d>() * SE2d(SO2d(0.1 * (t + 1)), Eigen::Vector2d(t, 1));
+    put(out, a.get<SE2d>().coeffs());
+    put(out, s->any->get<SE2d>().coeffs());
+    put(out, rminus(a, *s->any));
   }
 }
 c18::BodyReg reg_curve({"curve_construction", 2, curve_make, curve_op});
